@@ -14,6 +14,12 @@ action property Frame (no action alters an existing object; the list is altered 
 (chains entering R-hat = the receiver followed by the list as the caller last set it); the harness replays every edge on one real
 heap and one real list per walk with deep fingerprints of the receiver and every argument around every call and compares
 the result of every call - first, repeated, repeated after all other operations - with the value the spec determines.
+
+Data layout (dimension `lay` of both configurations): the source array holds the SAME exact values as float64 / int64 / int32 /
+float32, Fortran-ordered, as a non-contiguous view of a wider array, write-protected (and two combinations); the spec's
+invariants LayoutIndependent / FLayoutIndependent state that the expected columns and exact statistics do not depend on it
+(deviations CastBack, ConvKeepsType); the replay builds the source in every layout (c19_trace.in_layout) and compares values
+only (never the number type of a result).
 """
 META = {
     "claimed": True,
@@ -42,9 +48,23 @@ META = {
              "omitted (documented default 95), refusal of (is_par, not is_vec) at the constructor and the is_vec setter, and the "
              "values and is_par flag that plot_mean / plot_median / plot_variance / plot_std / plot_ci_width(p) hand to "
              "geometry.plot (exact statistic; for function samples in vector form the statistic of the converted samples - "
-             "PlotStatsOK) are compared with the specification."),
+             "PlotStatsOK) are compared with the specification. Data layout: the configurations of both machines carry the layout of "
+             "the source array - float64 (reference), int64, int32, float32, Fortran-ordered, a non-contiguous view (every second "
+             "column of a wider array), write-protected, and int32+view+write-protected, float32+Fortran - for chains of 4 (quick; 2 "
+             "and 5 thorough) samples of every geometry incl. joint sets, burnthin box b<=4, t<=2 (5, 3), and one (two) frame "
+             "configurations; TLC checks LayoutIndependent / FLayoutIndependent (expected columns and exact rational statistics of "
+             "every reachable object are the same in every layout; three more deviations must violate them: CastBack - statistics "
+             "cast back to the number type of the stored chain, in both machines - and ConvKeepsType - converted samples stored in "
+             "the number type of the receiver); the replay stores the same exact values in every layout and replays every "
+             "transition, statistic, view, plot hand-over, arviz hand-over and frame edge in it (values only; number types of "
+             "results are not compared; the wider array behind a view must stay untouched; no call may raise on a write-protected "
+             "chain); the geometry `half` (function values x/2, not integers) makes conversions of integer chains observable; "
+             "statistics of every member of a joint set are compared."),
     "note": ("Bounded chain lengths, burn-in / thinning boxes, eight fixed small geometries and a finite set of credibility "
-             "levels; statistics are compared on integer-valued chains with distinct entries per coordinate. "
+             "levels; statistics are compared on integer-valued chains with distinct entries per coordinate (function values of "
+             "`half`: halves). Single precision layouts: statistics are compared with 64 roundings of size 2^-23 x (largest stored "
+             "magnitude; its square for the variance) because numpy evaluates them in float32; columns, flags, refusals and the "
+             "arviz hand-over are exact in every layout. The number type / memory order of results is not asserted. "
              "Samples.vector for Continuous2D function values (not implemented by the library) and ESS/R-hat of "
              "function-value samples whose dimension differs from the parameter dimension are outside the asserted "
              "behaviour. Exception types of refused burn-in values are not asserted. Not exercised (no exact oracle in the "
@@ -378,9 +398,9 @@ def _close(a, b, lay=REF_LAYOUT, scale=1.0):
     return abs(a - b) <= RTOL * max(1.0, abs(b))
 
 
-def check_stats(ctx, ck, c, real, node):
+def check_stats(ctx, ck, c, real, node, member=None):
     o = node["obj"]
-    sig0 = "%s/%s" % (cstr(c), ostr(o))
+    sig0 = "%s/%s%s" % (cstr(c), ostr(o), "/member=" + member if member else "")
     case = {"kind": "node", "c": c, "obj": o}
     stats = node["stats"]
     lay = clay(c)
@@ -395,7 +415,7 @@ def check_stats(ctx, ck, c, real, node):
         except Exception as ex:      # noqa: BLE001
             ctx.mismatch("stats_raise/" + sig0, case, "a statistic of an array-valued sample set raised: %r" % (ex,))
             return
-    ctx.case(("stats", ck, okey(o)), facet="stats")
+    ctx.case(("stats", ck, okey(o), member), facet="stats")
     check_views(ctx, ck, c, real, node, shape)
     for name, arr in got.items():
         if np.shape(arr) != shape:
@@ -729,6 +749,11 @@ def replay_config(ctx, graph, ck, n_walks, rng):
         if not c["joint"]:
             check_stats(ctx, ck, c, live.real, node)
             check_arviz(ctx, ck, c, live.real, node, geoms[0])
+        else:
+            # statistics of every member of the joint set (y: multi-dimensional function values held in the source's layout)
+            check_stats(ctx, ck, c, live.real["x"], {"obj": node["obj"], "stats": node["stats"]}, member="x")
+            if node["stats2"]:
+                check_stats(ctx, ck, c, live.real["y"], {"obj": node["obj2"], "stats": node["stats2"]}, member="y")
         for e in graph.out_edges(ck, sk):
             n_edges += 1
             new = step(ctx, graph, ck, geoms, live, e, ops)
@@ -1268,7 +1293,9 @@ def replay_frame_config(ctx, graph, ck, n_walks, rng, pcts):
             if not frame_step(ctx, graph, ck, w, e, pcts, calls=2 if e["op"]["name"] not in ("ess", "rhat") or n_states % 3 == 0 else 1):
                 return n_edges, 0
         n_states += 1
-        for e in pure:                                # again, after every other operation has run on the same objects
+        # again, after every other operation has run on the same objects (not repeated in the configurations that differ
+        # from another one by the data layout only)
+        for e in (pure if ck[3] == REF_LAYOUT else ()):
             if not frame_step(ctx, graph, ck, w, e, pcts, calls=1):
                 return n_edges, 0
         for e in moving:
@@ -1311,8 +1338,10 @@ def _fgraph(ctx, tier):
     from cuqiverif.core import MachineryError
     if tier not in _FGRAPHS:
         cases = []
+        import os
         for cfg in FRAME_CFGS[tier]:
-            res = ctx.tlc("SamplesOps", cfg="SamplesOps.%s.cfg" % cfg, workers=16, timeout=1500, heap="8g")
+            res = ctx.tlc("SamplesOps", cfg="SamplesOps.%s.cfg" % cfg, workers=8, timeout=1500, heap="8g",
+                          workdir=os.path.join(_t.WORK, "SamplesOps-%s-%d" % (cfg, os.getpid())))
             ctx.model_must_hold(res, "SamplesOps." + cfg)
             cases += res.cases
             _t.cleanup(res)
@@ -1487,7 +1516,9 @@ def _graph(ctx, tier):
     from cuqiverif import tlc as _t
     from cuqiverif.core import MachineryError
     if tier not in _GRAPHS:
-        res = ctx.tlc("SamplesOps", cfg="SamplesOps.%s.cfg" % tier, workers=16, timeout=1500, heap="8g")
+        import os
+        res = ctx.tlc("SamplesOps", cfg="SamplesOps.%s.cfg" % tier, workers=16, timeout=1500, heap="8g",
+                      workdir=os.path.join(_t.WORK, "SamplesOps-%s-%d" % (tier, os.getpid())))
         ctx.model_must_hold(res, "SamplesOps")
         _GRAPHS[tier] = Graph(res.cases)
         _t.cleanup(res)
@@ -1498,8 +1529,14 @@ def _graph(ctx, tier):
 
 def run(ctx, only=None):
     if only is None:
-        graph = _graph(ctx, ctx.tier)
-        run_deviations(ctx)
+        # the three groups of TLC runs (main machine, frame machine, deviations) are independent: started together, each
+        # in its own work directory
+        from concurrent.futures import ThreadPoolExecutor
+        with ThreadPoolExecutor(max_workers=3) as pool:
+            jobs = [pool.submit(_graph, ctx, ctx.tier), pool.submit(_fgraph, ctx, ctx.tier), pool.submit(run_deviations, ctx)]
+            graph = jobs[0].result()
+            jobs[1].result()
+            jobs[2].result()
     else:
         graph = _graph(ctx, "quick")
         if only not in graph.configs:
@@ -1558,7 +1595,9 @@ def run(ctx, only=None):
                         "frame machine: chains of 8 (10) samples, lists of 1..3 chains, at most 1 (2) results of library calls "
                         "kept as further receivers; R-hat / ESS values: arviz applied to the spec's arrays is the reference",
                         "arviz's own association name -> value in the Dataset it returns (trusted base)",
-                        "numpy float64 evaluation of TLC's exact rationals (comparison rtol 1e-12)"]
+                        "numpy float64 evaluation of TLC's exact rationals (comparison rtol 1e-12; float32 layouts: 64 * 2^-23 * "
+                        "largest stored magnitude, squared for the variance)",
+                        "data layouts: non-reference layouts with chains of 4 (2, 5) samples, burnthin box b<=4, t<=2 (5, 3)"]
     ctx.trusted_base.append("arviz (ess / rhat numerics; only the hand-over and the order are checked)")
 
 
